@@ -26,6 +26,9 @@ PROPS = {
               "the round trip (C05_roundtrip) is over Coq's reals with the standard sqrt; the action/orthonormality/composition theorems hold over any field with decidable equality",
               "a Basis3 is modelled by its matrix (the struct has that single private field)"],
              trusted=["rustc monomorphisation of the generic code at Xq"]),
+    "C12": P(12, assumptions=["model (coq/Model/Point.v) is hand-written; tied to /repo by the exact-arithmetic correspondence of this run",
+              "integer scalar types: only no-overflow inputs", "centroid of the empty list divides by cast(0): outside the property (non-empty lists)"],
+             trusted=["rustc monomorphisation of the generic code at Xq and i32"]),
     "C03": P(3,
         assumptions=[
             "model (coq/Model/Vector.v) is hand-written; tied to /repo by the exact-arithmetic correspondence of this run",
